@@ -130,10 +130,12 @@ def apply_defect(rng, spec, d, nts, toks, strs):
         decls.insert(rng.randrange(len(decls) + 1), ("token", t, "string", "dup1"))
         decls.insert(rng.randrange(len(decls) + 1), ("token", t, "regex", "d+"))
     elif d == "same_value":
-        decls.insert(rng.randrange(len(decls) + 1), ("token", "SV_A", "string", "same"))
-        decls.insert(rng.randrange(len(decls) + 1), ("token", "SV_B", "string", rng.choice(["same", "s\\ame"])))
+        # two string tokens, a string token and a pattern token, or two pattern tokens with one text
+        ka, kb = rng.choice([("string", "string"), ("string", "string"), ("string", "regex"), ("regex", "string"), ("regex", "regex")])
+        decls.insert(rng.randrange(len(decls) + 1), ("token", "SV_A", ka, "same"))
+        decls.insert(rng.randrange(len(decls) + 1), ("token", "SV_B", kb, rng.choice(["same", "s\\ame"]) if kb == "string" else "same"))
     elif d == "literal_vs_token_value":
-        decls.insert(rng.randrange(len(decls) + 1), ("token", "KW", "string", "kw"))
+        decls.insert(rng.randrange(len(decls) + 1), ("token", "KW", rng.choice(["string", "string", "regex"]), "kw"))
         decls.append(("rule", rng.choice(nts), ("str", "kw")))
     elif d == "bad_predef":
         decls.insert(rng.randrange(len(decls) + 1), ("token", "BP", "predef", "$NOSUCH"))
